@@ -5,6 +5,7 @@ use std::io::{self, BufRead, Read, Write};
 
 mod canon;
 mod enumerate;
+mod extra;
 mod lex;
 mod walk;
 
@@ -66,6 +67,25 @@ fn main() {
             }
         }
         "enum" => enumerate::run(&args[2..], &mut out),
+        "file" | "dir" => {
+            canon::quiet_panics();
+            for rec in read_records() {
+                let line = canon::guarded(|| if mode == "file" { extra::file_line(&rec) } else { extra::dir_line(&rec) });
+                writeln!(out, "{}", line).unwrap();
+            }
+        }
+        "threads" => {
+            canon::quiet_panics();
+            let n: usize = args.get(2).and_then(|s| s.parse().ok()).unwrap_or(16);
+            extra::threads(n, read_records(), &mut out);
+        }
+        "serde" => {
+            canon::quiet_panics();
+            for rec in read_records() {
+                let line = canon::guarded(|| extra::serde_line(&rec));
+                writeln!(out, "{}", line).unwrap();
+            }
+        }
         _ => {
             eprintln!("usage: gv <classes|tables|tokens|enum ...>");
             std::process::exit(2);
